@@ -33,6 +33,17 @@ def meshes(tier):
                 m = dict(base)
                 m["levels"] = base["levels"] + [[[list(lo), list(hi)] for lo, hi in fs]]
                 ms.append(m)
+    ms += scope.thin_meshes(2)
+    # fine boxes aligned to ONE coarse cell (blocking factor 2 at the fine level): every single fine box inside the
+    # refinement of a two-box level 0, i.e. coarse boxes covered except for a strip one cell wide on any side
+    t = [((0, 0), (3, 1)), ((0, 2), (3, 5))]
+    base = {"ndims": 2, "domain": [4, 6], "levels": [[[list(lo), list(hi)] for lo, hi in t]]}
+    fines = scope.fine_box_sets(t, [8, 12], 2, 1 if tier == "quick" else 2, minsize=2, maxsize=10)
+    for fs in fines[::1 if tier == "quick" else 7]:
+        m = dict(base)
+        m["levels"] = base["levels"] + [[[list(lo), list(hi)] for lo, hi in fs]]
+        m["strip"] = True
+        ms.append(m)
     return ms
 
 
@@ -54,7 +65,9 @@ def cases(tier, seed):
             for li, lay in enumerate(lays):
                 if tier == "quick" and gi > 0 and li > 0:
                     continue
-                d = dict(mesh)
+                if mesh.get("strip") and (gi > 0 or li > 0):
+                    continue
+                d = {k_: v_ for k_, v_ in mesh.items() if k_ != "strip"}
                 d.update(geo)
                 d.update({"fields": ["temp", "density", "Z"], "layout": lay, "payload": "coded" if (gi + li) % 2 == 0 else "hostile",
                           "seed": seed})
